@@ -313,6 +313,22 @@ def shouldEliminateJoin (guards : List SingleRowAtom) (top a b : List ElimAtom) 
 def isReorderable (requireNoSide : Bool) (sides : List Side) : Bool :=
   if requireNoSide then !(sides.any (· != .none)) else true
 
+-- ------------------------------------------------------------------------------------------ unnest_subqueries
+open SqlglotModel.Bag in
+/-- a correlated scalar aggregate subquery `(SELECT proj(<aggregates>) FROM r WHERE on(a, r))` for outer row `a`:
+    the projection over the (possibly empty) group of matches -/
+def scalarSubq (proj : Table → Val) (on : Row → Row → B3) (a : Row) (r : Table) : Val :=
+  proj (matchesOf on a r)
+
+open SqlglotModel.Bag in
+def coalesceVal (v d : Val) : Val := if v.isNull then d else v
+
+open SqlglotModel.Bag in
+/-- `decorrelate`'s rewrite when the projection contains COUNT: LEFT JOIN to the subquery grouped by the correlation
+    key (a group exists iff there is a match; no group -> NULL) and `COALESCE(col, fallback)` -/
+def scalarDecorrelated (proj : Table → Val) (fallback : Val) (on : Row → Row → B3) (a : Row) (r : Table) : Val :=
+  coalesceVal (if (matchesOf on a r).isEmpty then Val.null else proj (matchesOf on a r)) fallback
+
 -- ------------------------------------------------------------------------------------------ pipeline
 /-- a rule is a function on queries; `Preserves sem r` = it never changes what a query returns -/
 def Preserves {Q R : Type} (sem : Q → R) (r : Q → Q) : Prop := ∀ q, sem (r q) = sem q
